@@ -21,6 +21,7 @@ RULESETS = {
     "C01": "c01",
     "C02": "c02",
     "C03": "c03",
+    "C04": "c04",
     "C06": "c06",
     "C08": "c08",
     "C10": "c10",
